@@ -13,10 +13,11 @@ HARNESS = ["zz_verif_c20_test.go", "zz_verif_c20b_test.go", "zz_verif_c20c_test.
 WEAK = ["NoTrustedHashCompare", "NoBlockIDCompare", "NoLastCommitBinding", "TxNotBound", "NoTxProofCheck",
         "ResultsPreimage", "ResultsHeightUnbound", "NoResultsHashCompare", "NoQueryProofCheck", "AbsenceRawKey",
         "NoParamsHashCompare", "ValsNotHashed", "BackwardsTargetNotRechecked", "BackwardsCommitUnverified",
+        "LatestPanicsWhenUpToDate", "LatestUnverifiedWhenUpToDate",
         "SearchProofFromCachedBlock"]
 # the invariant each weakened spec must violate (any of)
 WEAK_EXPECT = {"ResultsPreimage": ["RelayComplete"], "AbsenceRawKey": ["RelayComplete"],
-               "SearchProofFromCachedBlock": ["ServedProofsVerify"]}
+               "SearchProofFromCachedBlock": ["ServedProofsVerify"], "LatestPanicsWhenUpToDate": ["RelayComplete"]}
 
 
 def _descs(r):
@@ -118,7 +119,8 @@ def run(ctx):
             ctx.save_log("weak_" + w, rw.out)
             raise Undecided("vacuity: weakened spec Weak_%s is not refuted (%s)" % (w, names or rw.errors[:1]))
         nonvac["Weak_%s refuted by TLC" % w] = names[0]
-        if w in ("SearchProofFromCachedBlock", "BackwardsTargetNotRechecked", "BackwardsCommitUnverified"):
+        if w in ("SearchProofFromCachedBlock", "BackwardsTargetNotRechecked", "BackwardsCommitUnverified",
+                 "LatestPanicsWhenUpToDate", "LatestUnverifiedWhenUpToDate"):
             # the counterexample (a descending page spanning several heights / a forged block below the trust
             # height followed by a broken interim chain) is replayed on the real code
             try:
